@@ -805,7 +805,9 @@ def apply_op(st, op):
         got = call(lambda: td.clone(op[1]))
         if got[0] != "ok":
             return "raise", got[1]
-        st.td, st.pos = got[1], pos.clone()
+        # clone(recurse=False) keeps the very same tensors (and their memory layout: a later view() of an expanded entry is
+        # refused by torch itself), so the proxy keeps its layout too; only a deep clone makes everything contiguous
+        st.td, st.pos = got[1], (pos.clone() if op[1] else pos)
         return "ok", None
     if k == "tostack":
         e = td.get("s")
